@@ -277,6 +277,15 @@ def reg_cases(tier):
         for order in ((0, 1, 2), (2, 0, 1)):
             for layout in (False, True):
                 out.append(("register", dim, order, ("q0", "q1", "q2"), layout, "negzero"))
+    # how much of its layout the register fills: every trap ("full"), all but one (the cases above), a third ("sparse"); and the
+    # smallest case of all, one atom on a layout of one trap ("single")
+    for dim in (2, 3):
+        for order in itertools.permutations(range(3)):
+            for ids in (("q0", "q1", "q2"), (2, 0, 1)):
+                for layout in ("full", "sparse"):
+                    out.append(("register", dim, order, ids, layout))
+        out.append(("register", dim, (0,), ("q0",), "single"))
+        out.append(("register", dim, (0,), (0,), "single"))
     pts2 = [(5.0, 0.0), (0.0, 0.0), (0.0, 5.0), (5.0, 5.0)]
     ws = [0.3, 0.1, 0.4, 0.2]
     for perm in itertools.permutations(range(4)):
@@ -295,7 +304,13 @@ def check_register(dim, order, ids, layout, ptskind="plain"):
         pts = [(-0.0, 0.0), (8.0, -1e-9), (-3e-16, -9.25)] if dim == 2 else [(-0.0, 0.0, -1e-9), (8.0, -1e-9, 2.0), (3.0, -9.25, -0.0)]
     coords = {ids[i]: pts[i] for i in order}
     if layout:
-        L = RegisterLayout(pts[::-1] + ([(20.0, 20.0)] if dim == 2 else [(20.0, 20.0, 20.0)]), slug="lay")
+        far = [(20.0, 20.0)] if dim == 2 else [(20.0, 20.0, 20.0)]
+        if layout in ("full", "single"):
+            far = []
+        elif layout == "sparse":
+            far = [tuple(20.0 + 7.0 * k for _ in range(dim)) for k in range(6)]
+        lpts = pts[::-1] if layout != "single" else pts[:1]
+        L = RegisterLayout(lpts + far, slug="lay")
         trap_ids = L.get_traps_from_coordinates(*coords.values())
         reg = L.define_register(*trap_ids, qubit_ids=list(coords))
         Lb = deserialize_abstract_layout(L.to_abstract_repr())
@@ -311,7 +326,11 @@ def check_register(dim, order, ids, layout, ptskind="plain"):
         cls = "non-string-ids" if not all(isinstance(i, str) for i in ids) else ("layout" if layout else "plain")
         out.append((f"C17:register-roundtrip-differs:{dim}d:{cls}", f"{coords} -> {back.qubits}"))
     if (back.layout is None) != (reg.layout is None) or (reg.layout is not None and back.layout != reg.layout):
-        out.append((f"C17:register-layout-lost:{dim}d", ""))
+        out.append((f"C17:register-layout-lost:{dim}d", f"{len(coords)} atoms on a layout of {reg.layout.number_of_traps if reg.layout is not None else 0} traps"))
+    elif reg.layout is not None and (back.layout.slug != reg.layout.slug or deep(back.layout.traps_dict) != deep(reg.layout.traps_dict)
+                                     or list(getattr(back, "_layout_info").trap_ids) != list(getattr(reg, "_layout_info").trap_ids)):
+        out.append((f"C17:register-layout-differs:{dim}d", f"slug {back.layout.slug!r} vs {reg.layout.slug!r}, trap ids "
+                    f"{list(back._layout_info.trap_ids)} vs {list(reg._layout_info.trap_ids)}"))
     return out + [("@register", "")]
 
 
